@@ -27,6 +27,9 @@ type c17Case struct {
 	Width int      `json:"width,omitempty"`
 	Elems []string `json:"elems"` // textual scalar(s); one for scalars, 1..3 for leaf-lists
 	Prec  uint32   `json:"prec,omitempty"`
+	// ModelPrec, when set (1 + fraction-digits), is the fraction-digits the model declares for the leaf, different
+	// from the precision the client encoded: the value must make the journey unchanged all the same
+	ModelPrec uint32 `json:"model_prec,omitempty"`
 }
 
 func (c c17Case) isList() bool { return strings.HasPrefix(c.Kind, "list-") }
@@ -187,6 +190,11 @@ func c17Cases(thorough bool) []c17Case {
 	for _, p := range []uint32{0, 1, 2, 18} {
 		for _, d := range decDigits {
 			out = append(out, c17Case{Kind: "decimal", Prec: p, Elems: []string{d}})
+			for _, mp := range []uint32{0, 2} {
+				if mp != p && (d == "6" || d == "-5" || d == "123456") {
+					out = append(out, c17Case{Kind: "decimal", Prec: p, Elems: []string{d}, ModelPrec: mp + 1})
+				}
+			}
 		}
 		lists("decimal", 0, p, []string{"0", "-5", "123456"})
 	}
@@ -334,7 +342,11 @@ func c17CheckOne(rep *Report, impl c17Impl, c c17Case) (nontrivialKey string) {
 		}
 	}()
 	v := c.gnmi()
-	back, doc, err := impl.journey(v, c.Width, c.Prec)
+	modelPrec := c.Prec
+	if c.ModelPrec > 0 {
+		modelPrec = c.ModelPrec - 1
+	}
+	back, doc, err := impl.journey(v, c.Width, modelPrec)
 	if err != nil {
 		rep.Violate(impl.name+"/refused/"+c.Kind, fmt.Sprintf("value %s (width %d) is refused: %v", c17Norm(v), c.Width, err), replay)
 		return ""
